@@ -1436,3 +1436,49 @@ class JobReset(FSContract):
 
 
 CONTRACTS += [JobClear(), JobReset()]
+
+
+# ============================================================================= Job.cached_statepoint
+
+
+class CachedStatepoint(FSContract):
+    target = f"{JOB}.Job.cached_statepoint"
+    properties = ("C02", "C08")
+    faults = False
+
+    def make_ctx(self, case):
+        import types
+        ctx = super().make_ctx(case)
+        ctx.ghost["fetched"] = []
+
+        def get_sp(interp, b):
+            ctx.ghost["fetched"].append(b["job_id"])
+            return SSP(z3.Const("sp_fetched", SPv))
+        ctx.callee_contracts[f"{PRJ}.Project._get_statepoint"] = get_sp
+        ctx.externals[types.MappingProxyType] = lambda interp, v: ("proxy", v)
+        return ctx
+
+    def setup(self, interp, case):
+        ex, ctx = interp.ex, interp.ctx
+        ctx.fs_init(ex)
+        proj = mk_project(ex)
+        job = mk_job(interp, proj, "me")
+        return [job], {}, {"job": job, "cs0": job.fields["_cached_statepoint"]}
+
+    def post(self, interp, case, pre, outcome):
+        ex, ctx = interp.ex, interp.ctx
+        if outcome[0] != "return":
+            ex.oblige(self.oname("raises:nothing"), False, note=repr(outcome[1]))
+            return
+        r, cs0 = outcome[1], pre["cs0"]
+        ok = isinstance(r, tuple) and r[0] == "proxy"
+        ex.oblige(self.oname("ensures:returns_a_read_only_view"), z3.BoolVal(ok))
+        if cs0 is not None:
+            # whatever the value is (also an EMPTY state point): a known state point is returned as is, nothing is fetched
+            ex.oblige(self.oname("ensures:a_known_state_point_is_returned_without_any_lookup"), z3.BoolVal(ok and r[1] is cs0 and ctx.ghost["fetched"] == []))
+        else:
+            ex.oblige(self.oname("ensures:an_unknown_state_point_is_looked_up_once_by_the_job_id_and_remembered"),
+                      z3.BoolVal(ok and len(ctx.ghost["fetched"]) == 1 and pre["job"].fields["_cached_statepoint"] is r[1]))
+
+
+CONTRACTS += [CachedStatepoint()]
